@@ -3,6 +3,7 @@ import RawPanelVerif.Lemmas.MonoTextXform
 import RawPanelVerif.Lemmas.MonoFont
 import RawPanelVerif.Lemmas.MonoTextBox
 import RawPanelVerif.Lemmas.MonoTextDev
+import RawPanelVerif.Lemmas.MonoTextPerLine
 import RawPanelVerif.Spec.TextSpec
 import RawPanelVerif.Driver.Text
 /-!
@@ -54,8 +55,22 @@ malformed bytes are `0xFD`); the theorems below are about the resulting byte(run
   enlarged exactly, nothing lit between them (`Lemmas/MonoTextDev.textR0_dev`; `check_dev_of_facts` /
   `scaleDevOk_of_facts` are the Spec-side half).  Non-vacuity: the recorded example evaluates to `scale.spacing`, the same
   case with one extra pixel to `scale`.
-  NOT YET PROVED at Spec level: strings with line feeds (the per-line clauses of the Spec are evaluated on every run; the
-  model-level per-line theorems are `ink_in_box_lines`, `translation_lines`, `scale_general`), canvas widths not a multiple of 8.
+* `spec_check_lines_state` — **any string (any number of line feeds), any canvas width** (no `10 ∉ s`, no `W % 8 = 0`): for
+  every text state with spacing 0 (wrapping off, background = text colour), `1 ≤ h`, `1 ≤ v < 2^24`, any cursor / offset,
+  `Spec.Text.check` answers `none` on the model's three renderings with the case record the driver builds (`linesCase`: row
+  stride `⌈W/8⌉`, one segment width per LF-separated line, reported line heights).  Box clauses always; translation and
+  scale under the Spec's own gate `unclipped` = every line box `[lineX_i, lineX_i + segw_i + h) × [cy + i·lh, cy + (i+1)·lh)`
+  of `A`, of `B` and (with `segw1`, 1, `lh1`) of `C` lies on the `W × H` canvas, cursor `≥ 0`, `h, v ≥ 1`.  Nothing about the
+  cursor column is assumed: after a line feed the code puts it at 0 (`renderText_lf`, `lineSt_eq`), which is exactly the
+  Spec's `lineX` / `lineDx`.  Padding bits `W ≤ X < 8·⌈W/8⌉` (scanned by the Spec) stay blank: `DrawPixel` clips at `W`
+  (`renderText_blankL`).  Built from `textR0L_lines` (painted region = union of the one-line regions at `lineSt t n`),
+  `px_line`, `line_scale`, `lineSt_shift`, `noEarlyL_of_boxesFit` (model side, `Lemmas/MonoTextPerLine.lean`) and
+  `check_lines_of_facts` (`boxOk_of_ink`, `translateOk_of_ink`, `scaleOk_of_ink`: Spec side, any renderer, any `Case`).
+  Corollaries: `spec_check_holds_state_anyW` (one line, any width), `spec_check_lines` (setter order of `text.case`),
+  `sess_final_lines` (any call history).  No sub-case turned out false: wrapping is off in every case the Spec judges.
+  NOT YET PROVED at Spec level: `spec_check_spacing` (extra spacing > 0: `none ∨ scale.spacing`) for strings with line feeds
+  and for canvas widths not a multiple of 8 (the per-line `scaleDevOk` clause is evaluated on every run; model level:
+  `Lemmas/MonoTextDev.textR0_dev` is per line already).
 -/
 namespace RawPanelVerif.C20
 open RawPanelVerif RawPanelVerif.Mono RawPanelVerif.Gen
@@ -1192,6 +1207,820 @@ example : (runCalls (newCanvas 8 8, {}) [.size 3 2, .font 2 true, .strWidth [49,
 example : Spec.Text.unclipped
     (oneLineCase 64 40 2 1 3 2 2 2 (lineHeight (caseState 0 true 0 2 2 2 1)) (lineHeight (caseState 0 true 0 1 1 2 1))
       (strWidth (caseState 0 true 0 2 2 2 1) [65, 90]) (strWidth (caseState 0 true 0 1 1 2 1) [65, 90]) 0 2) = true := by
+  decide +kernel
+
+/-! ## The executable Spec for strings with line feeds, canvases of any width -/
+
+theorem lineIdx_band (cy lh : Int) (N : Nat) (Y : Int) (i : Nat) (hl : 0 < lh) (hi : i < N)
+    (h1 : cy + i * lh ≤ Y) (h2 : Y < cy + i * lh + lh) : Spec.Text.lineIdx cy lh N Y = some i := by
+  have h0 : (0 : Int) ≤ (i : Int) * lh := Int.mul_nonneg (by omega) (by omega)
+  unfold Spec.Text.lineIdx
+  rw [if_neg (by omega)]
+  simp only []
+  have e := Int.emod_add_mul_ediv (Y - cy) lh
+  have m1 := Int.emod_nonneg (Y - cy) (by omega : lh ≠ 0)
+  have m2 := Int.emod_lt_of_pos (Y - cy) hl
+  have ec : (i : Int) * lh = lh * i := Int.mul_comm _ _
+  have hd : (Y - cy) / lh = i := block_index lh i ((Y - cy) / lh) ((Y - cy) % lh) hl m1 m2 (by omega) (by omega)
+  rw [hd, Int.toNat_natCast, if_pos hi]
+
+theorem lineIdx_some {cy lh : Int} {N : Nat} {Y : Int} {i : Nat} (h : Spec.Text.lineIdx cy lh N Y = some i) :
+    0 < lh ∧ i < N ∧ cy + i * lh ≤ Y ∧ Y < cy + i * lh + lh := by
+  unfold Spec.Text.lineIdx at h
+  by_cases hc : lh ≤ 0 ∨ Y < cy
+  · rw [if_pos hc] at h; cases h
+  · rw [if_neg hc] at h
+    simp only [] at h
+    by_cases hi : ((Y - cy) / lh).toNat < N
+    · rw [if_pos hi] at h
+      injection h with h
+      subst h
+      have hl : 0 < lh := by omega
+      have e := Int.emod_add_mul_ediv (Y - cy) lh
+      have m1 := Int.emod_nonneg (Y - cy) (by omega : lh ≠ 0)
+      have m2 := Int.emod_lt_of_pos (Y - cy) hl
+      have d0 : 0 ≤ (Y - cy) / lh := Int.ediv_nonneg (by omega) (by omega)
+      have hn : (((Y - cy) / lh).toNat : Int) = (Y - cy) / lh := Int.toNat_of_nonneg d0
+      have ec : ((Y - cy) / lh) * lh = lh * ((Y - cy) / lh) := Int.mul_comm _ _
+      rw [hn]
+      exact ⟨hl, hi, by omega, by omega⟩
+    · rw [if_neg hi] at h; cases h
+
+theorem band_unique (cy lh : Int) (i j : Nat) (Y : Int) (hl : 0 < lh)
+    (a1 : cy + i * lh ≤ Y) (a2 : Y < cy + i * lh + lh) (b1 : cy + j * lh ≤ Y) (b2 : Y < cy + j * lh + lh) : i = j := by
+  have h1 := lineIdx_band cy lh (i + j + 1) Y i hl (by omega) a1 a2
+  have h2 := lineIdx_band cy lh (i + j + 1) Y j hl (by omega) b1 b2
+  rw [h1] at h2
+  injection h2
+
+theorem band_mul (i N : Nat) (lh : Int) (hi : i < N) (hl : 0 < lh) :
+    (0 : Int) ≤ (i : Int) * lh ∧ (i : Int) * lh + lh ≤ (N : Int) * lh := by
+  have h0 : (0 : Int) ≤ (i : Int) * lh := Int.mul_nonneg (by omega) (by omega)
+  have h1 : ((i : Int) + 1) * lh ≤ (N : Int) * lh := Int.mul_le_mul_of_nonneg_right (by omega) (by omega)
+  rw [Int.add_mul, Int.one_mul] at h1
+  exact ⟨h0, h1⟩
+
+/-- every lit bit of `A` lies in the box of a line: line `n` at column `lineX cx n`, width `segw_n + h`, rows
+`[cy + n·lh, cy + (n+1)·lh)` -/
+def InkInBoxes (wib : Nat) (A : Array UInt8) (cx cy h lh : Int) (segw : List Int) : Prop :=
+  ∀ X Y : Int, Spec.Text.bitAt wib A X Y = true →
+    ∃ n : Nat, n < segw.length ∧ Spec.Text.lineX cx n ≤ X ∧ X < Spec.Text.lineX cx n + segw.getD n 0 + h ∧
+      cy + n * lh ≤ Y ∧ Y < cy + n * lh + lh
+
+theorem boxesFit_elim (k : Spec.Text.Case) (cx cy h lh : Int) (segw : List Int)
+    (hu : Spec.Text.boxesFit k cx cy h lh segw = true) :
+    (0 ≤ cx ∧ 0 ≤ cy ∧ 0 < lh ∧ cy + segw.length * lh ≤ k.H) ∧
+    ∀ i, i < segw.length → 0 ≤ segw.getD i 0 + h ∧ Spec.Text.lineX cx i + segw.getD i 0 + h ≤ k.W := by
+  unfold Spec.Text.boxesFit at hu
+  simp only [Bool.and_eq_true, decide_eq_true_eq, List.all_eq_true, List.mem_range] at hu
+  exact hu
+
+theorem inBoxes_of_ink (cx cy h lh : Int) (segw : List Int) (hl : 0 < lh) (X Y : Int)
+    (hb : ∃ n : Nat, n < segw.length ∧ Spec.Text.lineX cx n ≤ X ∧ X < Spec.Text.lineX cx n + segw.getD n 0 + h ∧
+      cy + n * lh ≤ Y ∧ Y < cy + n * lh + lh) : Spec.Text.inBoxes cx cy h lh segw X Y = true := by
+  obtain ⟨n, hn, b1, b2, b3, b4⟩ := hb
+  unfold Spec.Text.inBoxes
+  rw [lineIdx_band cy lh segw.length Y n hl hn b3 b4]
+  simp only [Bool.and_eq_true, decide_eq_true_eq]
+  exact ⟨b1, b2⟩
+
+theorem boxOk_of_ink (k : Spec.Text.Case) (A : Array UInt8) (hl : 0 < k.lh)
+    (fa : InkInBoxes k.wib A k.cx k.cy k.h k.lh k.segw) : Spec.Text.boxOk k A = true := by
+  unfold Spec.Text.boxOk
+  rw [List.all_eq_true]
+  intro p hp
+  obtain ⟨X, Y, rfl, _, _⟩ := mem_textPixels _ p hp
+  simp only []
+  cases hb : Spec.Text.bitAt k.wib A (X : Int) (Y : Int) with
+  | false => rfl
+  | true =>
+    rw [inBoxes_of_ink k.cx k.cy k.h k.lh k.segw hl _ _ (fa _ _ hb)]
+    rfl
+
+theorem boxOk1_of_ink (k : Spec.Text.Case) (C : Array UInt8) (hl1 : 0 < k.lh1)
+    (fc : InkInBoxes k.wib C k.cx k.cy 1 k.lh1 k.segw1) : Spec.Text.boxOk1 k C = true := by
+  unfold Spec.Text.boxOk1
+  rw [List.all_eq_true]
+  intro p hp
+  obtain ⟨X, Y, rfl, _, _⟩ := mem_textPixels _ p hp
+  simp only []
+  cases hb : Spec.Text.bitAt k.wib C (X : Int) (Y : Int) with
+  | false => rfl
+  | true =>
+    rw [inBoxes_of_ink k.cx k.cy 1 k.lh1 k.segw1 hl1 _ _ (fc _ _ hb)]
+    rfl
+
+theorem lineX_add (cx dx : Int) (n : Nat) : Spec.Text.lineX (cx + dx) n = Spec.Text.lineX cx n + Spec.Text.lineDx dx n := by
+  unfold Spec.Text.lineX Spec.Text.lineDx
+  by_cases h : n = 0 <;> simp [h]
+
+theorem lineX_nonneg (cx : Int) (n : Nat) (h : 0 ≤ cx) : 0 ≤ Spec.Text.lineX cx n := by
+  unfold Spec.Text.lineX; split <;> omega
+
+theorem bitAt_false_of {wib : Nat} {A : Array UInt8} {X Y : Int} (h : Spec.Text.bitAt wib A X Y = true → False) :
+    Spec.Text.bitAt wib A X Y = false := by
+  cases hb : Spec.Text.bitAt wib A X Y with
+  | false => rfl
+  | true => exact (h hb).elim
+
+theorem translateOk_of_ink (k : Spec.Text.Case) (A B : Array UInt8) (hW : k.W ≤ k.wib * 8)
+    (fa : InkInBoxes k.wib A k.cx k.cy k.h k.lh k.segw)
+    (fb : InkInBoxes k.wib B (k.cx + k.dx) (k.cy + k.dy) k.h k.lh k.segw)
+    (ua : Spec.Text.boxesFit k k.cx k.cy k.h k.lh k.segw = true)
+    (ub : Spec.Text.boxesFit k (k.cx + k.dx) (k.cy + k.dy) k.h k.lh k.segw = true)
+    (ft : ∀ (n : Nat) (X Y : Int), n < k.segw.length → 0 ≤ X → X < k.W → 0 ≤ Y → Y < k.H →
+      k.cy + n * k.lh ≤ Y → Y < k.cy + n * k.lh + k.lh →
+      0 ≤ X + Spec.Text.lineDx k.dx n → X + Spec.Text.lineDx k.dx n < k.W → 0 ≤ Y + k.dy → Y + k.dy < k.H →
+      Spec.Text.bitAt k.wib B (X + Spec.Text.lineDx k.dx n) (Y + k.dy) = Spec.Text.bitAt k.wib A X Y) :
+    Spec.Text.translateOk k A B = true := by
+  obtain ⟨⟨a1, a2, hl, a4⟩, afit⟩ := boxesFit_elim k _ _ _ _ _ ua
+  obtain ⟨⟨b1, b2, _, b4⟩, bfit⟩ := boxesFit_elim k _ _ _ _ _ ub
+  unfold Spec.Text.translateOk
+  rw [Bool.and_eq_true, List.all_eq_true, List.all_eq_true]
+  constructor
+  · intro p hp
+    obtain ⟨X, Y, rfl, hX, hY⟩ := mem_textPixels _ p hp
+    simp only []
+    cases hli : Spec.Text.lineIdx k.cy k.lh k.segw.length ((Y : Int) - k.dy) with
+    | none =>
+      simp only []
+      rw [bitAt_false_of (A := B)]
+      · rfl
+      · intro hb
+        obtain ⟨n, hn, _, _, c3, c4⟩ := fb _ _ hb
+        have := lineIdx_band k.cy k.lh k.segw.length ((Y : Int) - k.dy) n hl hn (by omega) (by omega)
+        rw [this] at hli; cases hli
+    | some i =>
+      obtain ⟨_, hi, c1, c2⟩ := lineIdx_some hli
+      obtain ⟨m1, m2⟩ := band_mul i k.segw.length k.lh hi hl
+      have hYs : 0 ≤ (Y : Int) - k.dy ∧ (Y : Int) - k.dy < k.H := by omega
+      simp only []
+      rw [decide_eq_true hYs, Bool.true_and]
+      have hAbox : ∀ X' : Int, Spec.Text.bitAt k.wib A X' ((Y : Int) - k.dy) = true →
+          Spec.Text.lineX k.cx i ≤ X' ∧ X' < Spec.Text.lineX k.cx i + k.segw.getD i 0 + k.h := by
+        intro X' hb
+        obtain ⟨n, hn, d1, d2, d3, d4⟩ := fa _ _ hb
+        have : n = i := band_unique k.cy k.lh n i _ hl d3 d4 c1 c2
+        subst this; exact ⟨d1, d2⟩
+      have hBbox : Spec.Text.bitAt k.wib B (X : Int) (Y : Int) = true →
+          Spec.Text.lineX (k.cx + k.dx) i ≤ (X : Int) ∧ (X : Int) < Spec.Text.lineX (k.cx + k.dx) i + k.segw.getD i 0 + k.h := by
+        intro hb
+        obtain ⟨n, hn, d1, d2, d3, d4⟩ := fb _ _ hb
+        have : n = i := band_unique k.cy k.lh n i ((Y : Int) - k.dy) hl (by omega) (by omega) c1 c2
+        subst this; exact ⟨d1, d2⟩
+      obtain ⟨f1, f2⟩ := afit i hi
+      obtain ⟨g1, g2⟩ := bfit i hi
+      have hlx := lineX_add k.cx k.dx i
+      have hx0 := lineX_nonneg k.cx i a1
+      by_cases hin : (0 ≤ (X : Int) - Spec.Text.lineDx k.dx i ∧ (X : Int) - Spec.Text.lineDx k.dx i < k.W) ∧ (X : Int) < k.W
+      · have key := ft i ((X : Int) - Spec.Text.lineDx k.dx i) ((Y : Int) - k.dy) hi hin.1.1 hin.1.2 hYs.1 hYs.2 c1 c2
+          (by omega) (by omega) (by omega) (by omega)
+        have e1 : (X : Int) - Spec.Text.lineDx k.dx i + Spec.Text.lineDx k.dx i = X := by omega
+        have e2 : (Y : Int) - k.dy + k.dy = Y := by omega
+        rw [e1, e2] at key
+        rw [key]; simp
+      · have hA : Spec.Text.bitAt k.wib A ((X : Int) - Spec.Text.lineDx k.dx i) ((Y : Int) - k.dy) = false := by
+          apply bitAt_false_of
+          intro hb
+          have := hAbox _ hb
+          apply hin; omega
+        have hB : Spec.Text.bitAt k.wib B (X : Int) (Y : Int) = false := by
+          apply bitAt_false_of
+          intro hb
+          have := hBbox hb
+          apply hin; omega
+        rw [hA, hB]; rfl
+  · intro p hp
+    obtain ⟨X, Y, rfl, hX, hY⟩ := mem_textPixels _ p hp
+    simp only []
+    cases hb : Spec.Text.bitAt k.wib A (X : Int) (Y : Int) with
+    | false => rfl
+    | true =>
+      obtain ⟨n, hn, d1, d2, d3, d4⟩ := fa _ _ hb
+      rw [lineIdx_band k.cy k.lh k.segw.length (Y : Int) n hl hn d3 d4]
+      obtain ⟨m1, m2⟩ := band_mul n k.segw.length k.lh hn hl
+      obtain ⟨g1, g2⟩ := bfit n hn
+      have hlx := lineX_add k.cx k.dx n
+      have hx0 := lineX_nonneg (k.cx + k.dx) n b1
+      simp only [Bool.not_true, Bool.false_or, Bool.and_eq_true, decide_eq_true_eq]
+      have hWi : (k.W : Int) ≤ (k.wib : Int) * 8 := by omega
+      refine ⟨⟨⟨by omega, by omega⟩, by omega⟩, by omega⟩
+
+theorem scaleOk_of_ink (k : Spec.Text.Case) (A C : Array UInt8)
+    (fa : InkInBoxes k.wib A k.cx k.cy k.h k.lh k.segw)
+    (fc : InkInBoxes k.wib C k.cx k.cy 1 k.lh1 k.segw1)
+    (ua : Spec.Text.boxesFit k k.cx k.cy k.h k.lh k.segw = true)
+    (hl1 : 0 < k.lh1) (hh : 1 ≤ k.h) (hv : 1 ≤ k.v) (hlv : k.lh = k.v * k.lh1)
+    (hsw : ∀ i, i < k.segw.length → k.segw.getD i 0 + k.h = k.h * (k.segw1.getD i 0 + 1))
+    (fs : ∀ (n : Nat) (I J p q : Int), n < k.segw.length → 0 ≤ p → p < k.h → 0 ≤ q → q < k.v → 0 ≤ I → 0 ≤ J → J < k.lh1 →
+      Spec.Text.lineX k.cx n + k.h * I + p < k.W → k.cy + n * k.lh + k.v * J + q < k.H →
+      Spec.Text.bitAt k.wib A (Spec.Text.lineX k.cx n + k.h * I + p) (k.cy + n * k.lh + k.v * J + q) =
+        Spec.Text.bitAt k.wib C (Spec.Text.lineX k.cx n + I) (k.cy + n * k.lh1 + J)) :
+    Spec.Text.scaleOk k A C = true := by
+  obtain ⟨⟨a1, a2, hl, a4⟩, afit⟩ := boxesFit_elim k _ _ _ _ _ ua
+  unfold Spec.Text.scaleOk
+  rw [List.all_eq_true]
+  intro p hp
+  obtain ⟨X, Y, rfl, hX, hY⟩ := mem_textPixels _ p hp
+  simp only []
+  cases hli : Spec.Text.lineIdx k.cy k.lh k.segw.length (Y : Int) with
+  | none =>
+    simp only []
+    rw [bitAt_false_of (A := A)]
+    · rfl
+    · intro hb
+      obtain ⟨n, hn, _, _, c3, c4⟩ := fa _ _ hb
+      rw [lineIdx_band k.cy k.lh k.segw.length (Y : Int) n hl hn c3 c4] at hli; cases hli
+  | some i =>
+    obtain ⟨_, hi, c1, c2⟩ := lineIdx_some hli
+    simp only []
+    have hAbox : Spec.Text.bitAt k.wib A (X : Int) (Y : Int) = true →
+        Spec.Text.lineX k.cx i ≤ (X : Int) ∧ (X : Int) < Spec.Text.lineX k.cx i + k.segw.getD i 0 + k.h := by
+      intro hb
+      obtain ⟨n, hn, d1, d2, d3, d4⟩ := fa _ _ hb
+      have : n = i := band_unique k.cy k.lh n i _ hl d3 d4 c1 c2
+      subst this; exact ⟨d1, d2⟩
+    obtain ⟨f1, f2⟩ := afit i hi
+    by_cases hii : (X : Int) - Spec.Text.lineX k.cx i < 0
+    · rw [if_pos hii, bitAt_false_of (A := A)]
+      · rfl
+      · intro hb; have := hAbox hb; omega
+    · rw [if_neg hii]
+      have hh0 : 0 < k.h := by omega
+      have hv0 : 0 < k.v := by omega
+      have e1 := Int.emod_add_mul_ediv ((X : Int) - Spec.Text.lineX k.cx i) k.h
+      have e2 := Int.emod_add_mul_ediv ((Y : Int) - (k.cy + i * k.lh)) k.v
+      have m1 := Int.emod_nonneg ((X : Int) - Spec.Text.lineX k.cx i) (by omega : k.h ≠ 0)
+      have m2 := Int.emod_lt_of_pos ((X : Int) - Spec.Text.lineX k.cx i) hh0
+      have m3 := Int.emod_nonneg ((Y : Int) - (k.cy + i * k.lh)) (by omega : k.v ≠ 0)
+      have m4 := Int.emod_lt_of_pos ((Y : Int) - (k.cy + i * k.lh)) hv0
+      have d1 : 0 ≤ ((X : Int) - Spec.Text.lineX k.cx i) / k.h := Int.ediv_nonneg (by omega) (by omega)
+      have d2 : 0 ≤ ((Y : Int) - (k.cy + i * k.lh)) / k.v := Int.ediv_nonneg (by omega) (by omega)
+      have d3 : ((Y : Int) - (k.cy + i * k.lh)) / k.v < k.lh1 :=
+        Int.ediv_lt_of_lt_mul hv0 (by rw [show k.lh1 * k.v = k.lh from by rw [hlv, Int.mul_comm]]; omega)
+      by_cases hXW : (X : Int) < k.W
+      · have key := fs i (((X : Int) - Spec.Text.lineX k.cx i) / k.h) (((Y : Int) - (k.cy + i * k.lh)) / k.v)
+          (((X : Int) - Spec.Text.lineX k.cx i) % k.h) (((Y : Int) - (k.cy + i * k.lh)) % k.v) hi m1 m2 m3 m4 d1 d2 d3
+          (by omega) (by omega)
+        have ex : Spec.Text.lineX k.cx i + k.h * (((X : Int) - Spec.Text.lineX k.cx i) / k.h) +
+            ((X : Int) - Spec.Text.lineX k.cx i) % k.h = X := by omega
+        have ey : k.cy + i * k.lh + k.v * (((Y : Int) - (k.cy + i * k.lh)) / k.v) +
+            ((Y : Int) - (k.cy + i * k.lh)) % k.v = Y := by omega
+        rw [ex, ey] at key
+        rw [key]; simp
+      · have hA : Spec.Text.bitAt k.wib A (X : Int) (Y : Int) = false := by
+          apply bitAt_false_of
+          intro hb; have := hAbox hb; omega
+        have hC : Spec.Text.bitAt k.wib C (Spec.Text.lineX k.cx i + ((X : Int) - Spec.Text.lineX k.cx i) / k.h)
+            (k.cy + i * k.lh1 + ((Y : Int) - (k.cy + i * k.lh)) / k.v) = false := by
+          apply bitAt_false_of
+          intro hb
+          obtain ⟨n, hn, g1, g2, g3, g4⟩ := fc _ _ hb
+          have : n = i := band_unique k.cy k.lh1 n i _ hl1 g3 g4 (by omega) (by omega)
+          subst this
+          have hs := hsw n hi
+          have hmul : k.h * (((X : Int) - Spec.Text.lineX k.cx n) / k.h) ≤ k.h * k.segw1.getD n 0 :=
+            Int.mul_le_mul_of_nonneg_left (by omega) (by omega)
+          rw [Int.mul_add, Int.mul_one] at hs
+          omega
+        rw [hA, hC]; rfl
+
+theorem unclipped_elim_lines (k : Spec.Text.Case) (hu : Spec.Text.unclipped k = true) :
+    Spec.Text.boxesFit k k.cx k.cy k.h k.lh k.segw = true ∧
+    Spec.Text.boxesFit k (k.cx + k.dx) (k.cy + k.dy) k.h k.lh k.segw = true ∧
+    Spec.Text.boxesFit k k.cx k.cy 1 k.lh1 k.segw1 = true ∧ 1 ≤ k.h ∧ 1 ≤ k.v := by
+  unfold Spec.Text.unclipped at hu
+  simp only [Bool.and_eq_true, decide_eq_true_eq] at hu
+  obtain ⟨⟨⟨a, b⟩, c⟩, d, e⟩ := hu
+  exact ⟨a, b, c, d, e⟩
+
+/-- **From pixel facts to the executable Spec, any number of lines, any canvas width**: if the three observed renderings
+have their ink in their line boxes and — when the Spec's `unclipped` test holds — `B` is `A` translated line by line and `A`
+is `C` enlarged line by line, `Spec.Text.check` answers `none`. -/
+theorem check_lines_of_facts (k : Spec.Text.Case) (A B C : Array UInt8) (hW : k.W ≤ k.wib * 8)
+    (hl : 0 < k.lh) (hl1 : 0 < k.lh1) (hlv : k.lh = k.v * k.lh1)
+    (hsw : ∀ i, i < k.segw.length → k.segw.getD i 0 + k.h = k.h * (k.segw1.getD i 0 + 1))
+    (fa : InkInBoxes k.wib A k.cx k.cy k.h k.lh k.segw)
+    (fb : InkInBoxes k.wib B (k.cx + k.dx) (k.cy + k.dy) k.h k.lh k.segw)
+    (fc : InkInBoxes k.wib C k.cx k.cy 1 k.lh1 k.segw1)
+    (ft : Spec.Text.unclipped k = true → ∀ (n : Nat) (X Y : Int), n < k.segw.length → 0 ≤ X → X < k.W → 0 ≤ Y → Y < k.H →
+      k.cy + n * k.lh ≤ Y → Y < k.cy + n * k.lh + k.lh →
+      0 ≤ X + Spec.Text.lineDx k.dx n → X + Spec.Text.lineDx k.dx n < k.W → 0 ≤ Y + k.dy → Y + k.dy < k.H →
+      Spec.Text.bitAt k.wib B (X + Spec.Text.lineDx k.dx n) (Y + k.dy) = Spec.Text.bitAt k.wib A X Y)
+    (fs : Spec.Text.unclipped k = true → ∀ (n : Nat) (I J p q : Int), n < k.segw.length → 0 ≤ p → p < k.h → 0 ≤ q → q < k.v →
+      0 ≤ I → 0 ≤ J → J < k.lh1 →
+      Spec.Text.lineX k.cx n + k.h * I + p < k.W → k.cy + n * k.lh + k.v * J + q < k.H →
+      Spec.Text.bitAt k.wib A (Spec.Text.lineX k.cx n + k.h * I + p) (k.cy + n * k.lh + k.v * J + q) =
+        Spec.Text.bitAt k.wib C (Spec.Text.lineX k.cx n + I) (k.cy + n * k.lh1 + J)) :
+    Spec.Text.check k A B C = none := by
+  have hbox := boxOk_of_ink k A hl fa
+  have hbox1 := boxOk1_of_ink k C hl1 fc
+  unfold Spec.Text.check
+  rw [hbox, hbox1]
+  simp only [Bool.not_true, Bool.false_eq_true, if_false]
+  cases hu : Spec.Text.unclipped k with
+  | false => simp
+  | true =>
+    simp only [Bool.not_true, Bool.false_eq_true, if_false]
+    obtain ⟨ua, ub, _, u11, u12⟩ := unclipped_elim_lines k hu
+    have htr := translateOk_of_ink k A B hW fa fb ua ub (ft hu)
+    have hsc := scaleOk_of_ink k A C fa fc ua hl1 u11 u12 hlv hsw (fs hu)
+    rw [htr, hsc]
+    simp
+
+/-! ### the model's renderings read through the Spec's `bitAt` -/
+
+theorem render_geo (W H : Nat) (t : TextSt) (s : List Nat) (hw : t.wrap = false) (hH : 0 ≤ t.tsH) :
+    (renderText (newCanvas W H, t) s).1.geo.wib = (W + 7) / 8 ∧
+    (renderText (newCanvas W H, t) s).1.bytes.size = (W + 7) / 8 * H := by
+  have tb := renderText_lines_box s (newCanvas W H) (newCanvas_wf' W H) t hw hH
+  constructor
+  · rw [tb.geo]; rfl
+  · rw [tb.size]; simp [newCanvas]
+
+theorem bitAt_render_eq (W H : Nat) (t : TextSt) (s : List Nat) (hw : t.wrap = false) (hH : 0 ≤ t.tsH)
+    (X Y : Nat) (hX : X < (W + 7) / 8 * 8) :
+    Spec.Text.bitAt ((W + 7) / 8) (bytesU8 (renderText (newCanvas W H, t) s).1) (X : Int) (Y : Int) =
+      getPx (renderText (newCanvas W H, t) s).1 X Y := by
+  have hg := (render_geo W H t s hw hH).1
+  have := bitAt_getPx (renderText (newCanvas W H, t) s).1 X Y (by rw [hg]; exact hX)
+  rw [hg] at this
+  exact this
+
+/-- a bit that reads as lit is a stored bit of a row of the canvas -/
+theorem bitAt_render (W H : Nat) (t : TextSt) (s : List Nat) (hw : t.wrap = false) (hH : 0 ≤ t.tsH) (X Y : Int)
+    (hb : Spec.Text.bitAt ((W + 7) / 8) (bytesU8 (renderText (newCanvas W H, t) s).1) X Y = true) :
+    ∃ Xn Yn : Nat, X = Xn ∧ Y = Yn ∧ Xn < (W + 7) / 8 * 8 ∧ Yn < H ∧ getPx (renderText (newCanvas W H, t) s).1 Xn Yn = true := by
+  obtain ⟨hg, hsz⟩ := render_geo W H t s hw hH
+  obtain ⟨b1, b2, b3⟩ := bitAt_inside hb
+  obtain ⟨Xn, rfl⟩ := Int.eq_ofNat_of_zero_le b1
+  obtain ⟨Yn, rfl⟩ := Int.eq_ofNat_of_zero_le b3
+  have hXn : Xn < (W + 7) / 8 * 8 := by omega
+  rw [bitAt_render_eq W H t s hw hH Xn Yn hXn] at hb
+  refine ⟨Xn, Yn, rfl, rfl, hXn, ?_, hb⟩
+  by_cases hy : Yn < H
+  · exact hy
+  · exfalso
+    unfold getPx at hb
+    rw [hg] at hb
+    have : (W + 7) / 8 * H ≤ Yn * ((W + 7) / 8) + Xn / 8 := by
+      have : H * ((W + 7) / 8) ≤ Yn * ((W + 7) / 8) := Nat.mul_le_mul_right _ (by omega)
+      rw [Nat.mul_comm] at this; omega
+    rw [Array.getD_eq_getD_getElem?, Array.getElem?_eq_none (by omega)] at hb
+    simp at hb
+
+theorem lineAdvance_eq (t : TextSt) : lineAdvance t = (t.fp.bbH : Int) * t.tsV := by
+  unfold lineAdvance; exact Int.mul_comm _ _
+
+theorem lineSt_fields (t : TextSt) (n : Nat) :
+    (lineSt t n).cx = Spec.Text.lineX t.cx n ∧ (lineSt t n).cy = t.cy + n * ((t.fp.bbH : Int) * t.tsV) ∧
+    (lineSt t n).tsH = t.tsH ∧ (lineSt t n).tsV = t.tsV ∧ (lineSt t n).fp = t.fp ∧ (lineSt t n).tcol = t.tcol := by
+  rw [lineSt_eq, ← lineAdvance_eq]
+  unfold Spec.Text.lineX
+  by_cases h : n = 0
+  · subst h; simp
+  · rw [if_neg h, if_neg h]
+    exact ⟨rfl, rfl, rfl, rfl, rfl, rfl⟩
+
+theorem strWidth_lineSt (t : TextSt) (n : Nat) (l : List Nat) : advSum (lineSt t n) l = advSum t l := by
+  rw [lineSt_eq]
+  by_cases h : n = 0
+  · rw [if_pos h]
+  · rw [if_neg h]; exact advSum_cxy t _ _ l
+
+/-- **Ink in the line boxes, as the Spec reads it**: any string, any canvas width, any state (wrapping off) -/
+theorem ink_lines (W H : Nat) (t : TextSt) (s : List Nat) (hw : t.wrap = false) (hH : 0 ≤ t.tsH) :
+    InkInBoxes ((W + 7) / 8) (bytesU8 (renderText (newCanvas W H, t) s).1) t.cx t.cy t.tsH ((t.fp.bbH : Int) * t.tsV)
+      ((lines s).map (strWidth t)) := by
+  intro X Y hb
+  obtain ⟨Xn, Yn, rfl, rfl, hXn, hYn, hpx⟩ := bitAt_render W H t s hw hH X Y hb
+  have tb := renderText_lines_box s (newCanvas W H) (newCanvas_wf' W H) t hw hH
+  have hin : linesBox (geo0 W H) t (lines s) Xn Yn := by
+    by_cases hin : linesBox (geo0 W H) t (lines s) Xn Yn
+    · exact hin
+    · exfalso
+      have := tb.same Xn Yn (by rw [newCanvas_geo]; exact hXn) (by rw [newCanvas_geo]; exact hYn) (by rw [newCanvas_geo]; exact hin)
+      rw [this, getPx_newCanvas] at hpx
+      exact absurd hpx (by decide)
+  obtain ⟨n, l, hn, hbox⟩ := linesBox_elim (geo0 W H) (lines s) t Xn Yn hin
+  obtain ⟨_, q1, q2, q3, q4⟩ := hbox
+  have hlen : n < (lines s).length := by
+    rcases Nat.lt_or_ge n (lines s).length with h | h
+    · exact h
+    · rw [List.getElem?_eq_none h] at hn; cases hn
+  have b0 : (geo0 W H).bx = 0 := rfl
+  have b0' : (geo0 W H).byy = 0 := rfl
+  rw [b0] at q1 q2
+  rw [b0', lineAdvance_eq] at q3 q4
+  refine ⟨n, by rw [List.length_map]; exact hlen, ?_, ?_, by omega, by omega⟩
+  · unfold Spec.Text.lineX; omega
+  · have : ((lines s).map (strWidth t)).getD n 0 = strWidth t l := by
+      rw [List.getD_eq_getElem?_getD, List.getElem?_map, hn]; rfl
+    rw [this]; unfold Spec.Text.lineX; omega
+
+theorem lines_mem_no_lf (s : List Nat) : ∀ l, l ∈ lines s → 10 ∉ l := by
+  induction s with
+  | nil => intro l hl; simp [lines] at hl; subst hl; simp
+  | cons ch rest ih =>
+    intro l hl
+    by_cases h10 : ch = 10
+    · subst h10
+      rw [lines_cons_lf] at hl
+      rcases List.mem_cons.1 hl with h | h
+      · subst h; simp
+      · exact ih l h
+    · obtain ⟨l0, ls, hl0, e⟩ := lines_cons_ne ch rest h10
+      rw [e] at hl
+      rcases List.mem_cons.1 hl with h | h
+      · subst h
+        have := ih l0 (by rw [hl0]; simp)
+        intro hm
+        rcases List.mem_cons.1 hm with h' | h'
+        · exact h10 h'.symm
+        · exact this h'
+      · exact ih l (by rw [hl0]; exact List.mem_cons_of_mem _ h)
+
+theorem getElem?_lt {α : Type} {xs : List α} {n : Nat} {x : α} (h : xs[n]? = some x) : n < xs.length := by
+  rcases Nat.lt_or_ge n xs.length with h' | h'
+  · exact h'
+  · rw [List.getElem?_eq_none h'] at h; cases h
+
+theorem getD_map_lines (f : List Nat → Int) (ls : List (List Nat)) (n : Nat) (l : List Nat) (hn : ls[n]? = some l) :
+    (ls.map f).getD n 0 = f l := by
+  rw [List.getD_eq_getElem?_getD, List.getElem?_map, hn]; rfl
+
+/-- the line boxes on the canvas (the Spec's `boxesFit`) ⇒ no glyph of any line is rejected by `DrawChar`'s whole-glyph test -/
+theorem noEarlyL_of_boxesFit (W H : Nat) (t : TextSt) (s : List Nat) (hh : 1 ≤ t.tsH) (hv : 1 ≤ t.tsV) (k : Spec.Text.Case)
+    (hkW : k.W = W) (hkH : k.H = H)
+    (hfit : Spec.Text.boxesFit k t.cx t.cy t.tsH ((t.fp.bbH : Int) * t.tsV) ((lines s).map (strWidth t)) = true) :
+    NoEarlyL (geo0 W H) t s := by
+  obtain ⟨⟨a1, a2, hl, a4⟩, afit⟩ := boxesFit_elim k _ _ _ _ _ hfit
+  apply noEarlyL_of_lines
+  intro n l hn
+  have hlen := getElem?_lt hn
+  obtain ⟨f1, f2, f3, f4, _, _⟩ := lineSt_fields t n
+  obtain ⟨m1, m2⟩ := band_mul n (lines s).length _ hlen hl
+  have g := (afit n (by rw [List.length_map]; exact hlen)).2
+  rw [getD_map_lines (strWidth t) (lines s) n l hn, strWidth_eq, hkW] at g
+  rw [List.length_map, hkH] at a4
+  have hx0 := lineX_nonneg t.cx n a1
+  exact noEarly_of_fits W H l (lineSt t n) (by rw [f3]; exact hh) (by rw [f4]; exact hv) (by rw [f1]; exact hx0)
+    (by rw [f2]; omega) (by rw [f2]; omega) (by rw [f1, strWidth_lineSt]; omega)
+
+/-- pixel value inside the band of line `n`: decided by the one-line region of that line -/
+theorem px_line (W H : Nat) (t : TextSt) (s : List Nat) (hw : t.wrap = false) (hbg : t.tbg = t.tcol)
+    (hne : NoEarlyL (geo0 W H) t s) (hv : 1 ≤ t.tsV) (n : Nat) (l : List Nat) (hn : (lines s)[n]? = some l)
+    (X Y : Nat) (hX : X < (W + 7) / 8 * 8) (hY : Y < H)
+    (b1 : t.cy + n * ((t.fp.bbH : Int) * t.tsV) ≤ (Y : Int))
+    (b2 : (Y : Int) < t.cy + n * ((t.fp.bbH : Int) * t.tsV) + (t.fp.bbH : Int) * t.tsV) :
+    (textR0 (geo0 W H) (lineSt t n) l X Y → getPx (renderText (newCanvas W H, t) s).1 X Y = t.tcol) ∧
+    (¬ textR0 (geo0 W H) (lineSt t n) l X Y → getPx (renderText (newCanvas W H, t) s).1 X Y = false) := by
+  have val := renderText_blankL W H t s hw hbg hne X Y hX hY
+  obtain ⟨_, hbh⟩ := fp_pos t.font
+  have hbh1 : (1 : Int) ≤ (t.fp.bbH : Int) := by unfold TextSt.fp; omega
+  have hlpos : (0 : Int) < (t.fp.bbH : Int) * t.tsV := Int.mul_pos (by omega) (by omega)
+  have hiff : textR0L (geo0 W H) t s X Y ↔ textR0 (geo0 W H) (lineSt t n) l X Y := by
+    rw [textR0L_lines]
+    constructor
+    · rintro ⟨n', l', hn', hr⟩
+      obtain ⟨_, f2, _, f4, f5, _⟩ := lineSt_fields t n'
+      have rows := textR0_rows (geo0 W H) l' (lineSt t n') (by rw [f4]; omega) X Y hr
+      rw [f2, f4, f5] at rows
+      have b0' : (geo0 W H).byy = 0 := rfl
+      rw [b0'] at rows
+      have : n' = n := band_unique t.cy ((t.fp.bbH : Int) * t.tsV) n' n Y hlpos (by omega) (by omega) b1 b2
+      subst this
+      rw [hn] at hn'
+      injection hn' with hn'
+      subst hn'
+      exact hr
+    · intro hr; exact ⟨n, l, hn, hr⟩
+  exact ⟨fun hr => val.1 (hiff.2 hr), fun hr => val.2 (fun h => hr (hiff.1 h))⟩
+
+theorem lineSt_shift (t : TextSt) (dx dy : Int) (n : Nat) :
+    lineSt { t with cx := t.cx + dx, cy := t.cy + dy } n =
+      { lineSt t n with cx := (lineSt t n).cx + Spec.Text.lineDx dx n, cy := (lineSt t n).cy + dy } := by
+  rw [lineSt_eq, lineSt_eq]
+  unfold Spec.Text.lineDx
+  have e : lineAdvance { t with cx := t.cx + dx, cy := t.cy + dy } = lineAdvance t := rfl
+  by_cases h : n = 0
+  · rw [if_pos h, if_pos h, if_pos h]
+  · rw [if_neg h, if_neg h, if_neg h, e]
+    simp only [TextSt.mk.injEq, and_true, true_and]
+    constructor <;> omega
+
+theorem atSizeSp_zero (base : TextSt) (hsp : base.spacing = 0) (h v x y : Int) : atSizeSp base h v 0 x y = atSize base h v x y := by
+  unfold atSizeSp atSize
+  cases base
+  simp only at hsp
+  subst hsp
+  rfl
+
+/-- line `n` at size `(h,v)` is line `n` at size 1 enlarged about the cursor of the line (extra spacing 0) -/
+theorem line_scale (W H : Nat) (base : TextSt) (hsp : base.spacing = 0) (h v cx cy : Int) (hh : 0 < h) (hv : 0 < v)
+    (n : Nat) (l : List Nat) (hl : 10 ∉ l) (I J p q : Int) (Xh Yh X1 Y1 : Nat)
+    (hXh : Xh < W) (hYh : Yh < H) (hX1 : X1 < W) (hY1 : Y1 < H)
+    (hp0 : 0 ≤ p) (hp : p < h) (hq0 : 0 ≤ q) (hq : q < v)
+    (eXh : (Xh : Int) = Spec.Text.lineX cx n + h * I + p) (eYh : (Yh : Int) = cy + n * ((base.fp.bbH : Int) * v) + v * J + q)
+    (eX1 : (X1 : Int) = Spec.Text.lineX cx n + I) (eY1 : (Y1 : Int) = cy + n * ((base.fp.bbH : Int) * 1) + J) :
+    textR0 (geo0 W H) (lineSt (atSize base h v cx cy) n) l Xh Yh ↔
+    textR0 (geo0 W H) (lineSt (atSize base 1 1 cx cy) n) l X1 Y1 := by
+  have eA : lineSt (atSize base h v cx cy) n =
+      atSizeSp base h v 0 (Spec.Text.lineX cx n + h * 0) (cy + v * ((n : Int) * (base.fp.bbH : Int))) := by
+    rw [atSizeSp_zero base hsp, lineSt_eq]
+    unfold Spec.Text.lineX
+    have ela : lineAdvance (atSize base h v cx cy) = v * (base.fp.bbH : Int) := rfl
+    have em : v * ((n : Int) * (base.fp.bbH : Int)) = (n : Int) * (v * (base.fp.bbH : Int)) := by
+      rw [← Int.mul_assoc, Int.mul_comm v, Int.mul_assoc]
+    by_cases h0 : n = 0
+    · subst h0
+      unfold atSize
+      simp
+    · rw [if_neg h0, if_neg h0, ela, em]
+      unfold atSize
+      simp
+  have eC : lineSt (atSize base 1 1 cx cy) n =
+      atSizeSp base 1 1 0 (Spec.Text.lineX cx n + 0) (cy + (n : Int) * (base.fp.bbH : Int)) := by
+    rw [atSizeSp_zero base hsp, lineSt_eq]
+    unfold Spec.Text.lineX
+    have ela : lineAdvance (atSize base 1 1 cx cy) = 1 * (base.fp.bbH : Int) := rfl
+    by_cases h0 : n = 0
+    · subst h0
+      unfold atSize
+      simp
+    · rw [if_neg h0, if_neg h0, ela]
+      unfold atSize
+      simp
+  rw [eA, eC, ← textR0L_eq_textR0 _ l hl, ← textR0L_eq_textR0 _ l hl]
+  have b0 : (geo0 W H).bx = 0 := rfl
+  have b0' : (geo0 W H).byy = 0 := rfl
+  have em2 : v * ((n : Int) * (base.fp.bbH : Int) + J) = (n : Int) * ((base.fp.bbH : Int) * v) + v * J := by
+    rw [Int.mul_add, ← Int.mul_assoc, Int.mul_comm v, Int.mul_assoc, Int.mul_comm v]
+  exact textR0L_scale (geo0 W H) l base h 0 0 (by simp) v (Spec.Text.lineX cx n) cy hh hv (Or.inr hl) 0
+    ((n : Int) * (base.fp.bbH : Int)) I ((n : Int) * (base.fp.bbH : Int) + J) p q Xh Yh X1 Y1
+    (clipR_geo0 W H Xh Yh hXh hYh) (clipR_geo0 W H X1 Y1 hX1 hY1) hp0 hp hq0 hq
+    (by rw [b0]; omega) (by rw [b0', eYh, Int.add_zero, Int.add_assoc cy, em2]) (by rw [b0]; omega) (by rw [b0']; rw [Int.mul_one] at eY1; omega)
+
+/-- the Spec's case record for any string on a `W × H` canvas (row stride `⌈W/8⌉` bytes): one segment per LF-separated line -/
+def linesCase (W H : Nat) (cx cy dx dy h v lh lh1 : Int) (segw segw1 : List Int) (sp glyphs : Nat) : Spec.Text.Case :=
+  { W := W, wib := (W + 7) / 8, H := H, cx := cx, cy := cy, dx := dx, dy := dy, h := h, v := v, lh := lh, lh1 := lh1,
+    segw := segw, segw1 := segw1, spacing := sp, glyphs := glyphs }
+
+/-- the cursor moved by `(dx, dy)` -/
+def movedSt (t : TextSt) (dx dy : Int) : TextSt := { t with cx := t.cx + dx, cy := t.cy + dy }
+
+theorem strWidth_moved (t : TextSt) (dx dy : Int) (l : List Nat) : strWidth (movedSt t dx dy) l = strWidth t l := by
+  unfold movedSt
+  rw [strWidth_eq, strWidth_eq, advSum_cxy]
+
+theorem spec_check_lines_state (W H : Nat) (base : TextSt) (hsp : base.spacing = 0)
+    (hwr : base.wrap = false) (hbg : base.tbg = base.tcol) (h v cx cy dx dy : Int) (s : List Nat)
+    (hh : 1 ≤ h) (hv : 1 ≤ v) (hv' : v < 16777216) (glyphs : Nat) :
+    Spec.Text.check
+      (linesCase W H cx cy dx dy h v (lineHeight (atSize base h v cx cy)) (lineHeight (atSize base 1 1 cx cy))
+        ((lines s).map (strWidth (atSize base h v cx cy))) ((lines s).map (strWidth (atSize base 1 1 cx cy))) 0 glyphs)
+      (bytesU8 (renderText (newCanvas W H, atSize base h v cx cy) s).1)
+      (bytesU8 (renderText (newCanvas W H,
+        { atSize base h v cx cy with cx := (atSize base h v cx cy).cx + dx, cy := (atSize base h v cx cy).cy + dy }) s).1)
+      (bytesU8 (renderText (newCanvas W H, atSize base 1 1 cx cy) s).1) = none := by
+  obtain ⟨hbw, hbh⟩ := fp_pos base.font
+  have hbh8 := (font_tables_sized.2.2.2 base.font).2.2.1
+  have elh : (lineHeight (atSize base h v cx cy) : Int) = (base.fp.bbH : Int) * v :=
+    lineHeight_eq (atSize base h v cx cy) (by show 0 ≤ v; omega) (by show v < 16777216; exact hv') (by unfold TextSt.fp atSize; simp only []; omega)
+  have elh1 : (lineHeight (atSize base 1 1 cx cy) : Int) = (base.fp.bbH : Int) * 1 :=
+    lineHeight_eq (atSize base 1 1 cx cy) (by show (0 : Int) ≤ 1; omega) (by show (1 : Int) < 16777216; omega) (by unfold TextSt.fp atSize; simp only []; omega)
+  have hbh1 : (1 : Int) ≤ (base.fp.bbH : Int) := by unfold TextSt.fp; omega
+  have hlpos : (0 : Int) < (base.fp.bbH : Int) * v := Int.mul_pos (by omega) (by omega)
+  have eB : ({ atSize base h v cx cy with cx := (atSize base h v cx cy).cx + dx, cy := (atSize base h v cx cy).cy + dy } : TextSt)
+      = movedSt (atSize base h v cx cy) dx dy := rfl
+  rw [eB]
+  have hmapB : (lines s).map (strWidth (movedSt (atSize base h v cx cy) dx dy)) = (lines s).map (strWidth (atSize base h v cx cy)) :=
+    List.map_congr_left (fun l _ => strWidth_moved _ dx dy l)
+  have hA0 : (0 : Int) ≤ (atSize base h v cx cy).tsH := by show 0 ≤ h; omega
+  have hC0 : (0 : Int) ≤ (atSize base 1 1 cx cy).tsH := by show (0 : Int) ≤ 1; omega
+  refine check_lines_of_facts _ _ _ _ ?hW ?hl ?hl1 ?hlv ?hsw ?fa ?fb ?fc ?ft ?fs
+  case hW => show W ≤ (W + 7) / 8 * 8; omega
+  case hl => show (0 : Int) < (lineHeight (atSize base h v cx cy) : Int); rw [elh]; exact hlpos
+  case hl1 => show (0 : Int) < (lineHeight (atSize base 1 1 cx cy) : Int); rw [elh1]; omega
+  case hlv =>
+    show (lineHeight (atSize base h v cx cy) : Int) = v * (lineHeight (atSize base 1 1 cx cy) : Int)
+    rw [elh, elh1, Int.mul_one, Int.mul_comm]
+  case hsw =>
+    intro i hi
+    have hi' : i < (lines s).length := by
+      have : i < ((lines s).map (strWidth (atSize base h v cx cy))).length := hi
+      rwa [List.length_map] at this
+    have hnl : (lines s)[i]? = some (lines s)[i] := List.getElem?_eq_getElem hi'
+    show ((lines s).map (strWidth (atSize base h v cx cy))).getD i 0 + h =
+      h * (((lines s).map (strWidth (atSize base 1 1 cx cy))).getD i 0 + 1)
+    rw [getD_map_lines _ _ i _ hnl, getD_map_lines _ _ i _ hnl, strWidth_eq, strWidth_eq,
+      advSum_scale base hsp h v cx cy cx cy]
+    have e1 : (atSize base h v cx cy).tsH = h := rfl
+    have e2 : (atSize base 1 1 cx cy).tsH = 1 := rfl
+    rw [e1, e2]
+    have : advSum (atSize base 1 1 cx cy) (lines s)[i] - 1 + 1 = advSum (atSize base 1 1 cx cy) (lines s)[i] := by omega
+    rw [this]; omega
+  case fa =>
+    have := ink_lines W H (atSize base h v cx cy) s hwr hA0
+    show InkInBoxes ((W + 7) / 8) _ cx cy h (lineHeight (atSize base h v cx cy) : Int) _
+    rw [elh]; exact this
+  case fb =>
+    have := ink_lines W H (movedSt (atSize base h v cx cy) dx dy) s hwr hA0
+    rw [hmapB] at this
+    show InkInBoxes ((W + 7) / 8) _ (cx + dx) (cy + dy) h (lineHeight (atSize base h v cx cy) : Int) _
+    rw [elh]; exact this
+  case fc =>
+    have := ink_lines W H (atSize base 1 1 cx cy) s hwr hC0
+    show InkInBoxes ((W + 7) / 8) _ cx cy 1 (lineHeight (atSize base 1 1 cx cy) : Int) _
+    rw [elh1]; exact this
+  case ft =>
+    intro hu n X Y hn x0 x1 y0 y1 c1 c2 x2 x3 y2 y3
+    obtain ⟨ua0, ub0, _, _, _⟩ := unclipped_elim_lines _ hu
+    have ua : Spec.Text.boxesFit (linesCase W H cx cy dx dy h v _ _ _ _ 0 glyphs) cx cy h
+        (lineHeight (atSize base h v cx cy) : Int) ((lines s).map (strWidth (atSize base h v cx cy))) = true := ua0
+    have ub : Spec.Text.boxesFit (linesCase W H cx cy dx dy h v _ _ _ _ 0 glyphs) (cx + dx) (cy + dy) h
+        (lineHeight (atSize base h v cx cy) : Int) ((lines s).map (strWidth (atSize base h v cx cy))) = true := ub0
+    rw [elh] at ua ub
+    rw [← hmapB] at ub
+    have hneA : NoEarlyL (geo0 W H) (atSize base h v cx cy) s :=
+      noEarlyL_of_boxesFit W H (atSize base h v cx cy) s hh hv _ rfl rfl ua
+    have hneB : NoEarlyL (geo0 W H) (movedSt (atSize base h v cx cy) dx dy) s :=
+      noEarlyL_of_boxesFit W H (movedSt (atSize base h v cx cy) dx dy) s hh hv _ rfl rfl ub
+    have hn' : n < (lines s).length := by
+      have : n < ((lines s).map (strWidth (atSize base h v cx cy))).length := hn
+      rwa [List.length_map] at this
+    have hnl : (lines s)[n]? = some (lines s)[n] := List.getElem?_eq_getElem hn'
+    have x1' : X < (W : Int) := x1
+    have y1' : Y < (H : Int) := y1
+    have c1' : cy + n * (lineHeight (atSize base h v cx cy) : Int) ≤ Y := c1
+    have c2' : Y < cy + n * (lineHeight (atSize base h v cx cy) : Int) + (lineHeight (atSize base h v cx cy) : Int) := c2
+    have x2' : 0 ≤ X + Spec.Text.lineDx dx n := x2
+    have x3' : X + Spec.Text.lineDx dx n < (W : Int) := x3
+    have y2' : 0 ≤ Y + dy := y2
+    have y3' : Y + dy < (H : Int) := y3
+    rw [elh] at c1' c2'
+    show Spec.Text.bitAt ((W + 7) / 8) _ (X + Spec.Text.lineDx dx n) (Y + dy) = Spec.Text.bitAt ((W + 7) / 8) _ X Y
+    obtain ⟨Xn, rfl⟩ := Int.eq_ofNat_of_zero_le x0
+    obtain ⟨Yn, rfl⟩ := Int.eq_ofNat_of_zero_le y0
+    obtain ⟨Xn', hXn'⟩ := Int.eq_ofNat_of_zero_le x2'
+    obtain ⟨Yn', hYn'⟩ := Int.eq_ofNat_of_zero_le y2'
+    rw [hXn', hYn']
+    rw [bitAt_render_eq W H (atSize base h v cx cy) s hwr hA0 Xn Yn (by omega), bitAt_render_eq W H (movedSt (atSize base h v cx cy) dx dy) s hwr hA0 Xn' Yn' (by omega)]
+    have pA := px_line W H (atSize base h v cx cy) s hwr hbg hneA hv n _ hnl Xn Yn (by omega) (by omega) c1' c2'
+    have pB := px_line W H (movedSt (atSize base h v cx cy) dx dy) s hwr hbg hneB hv n _ hnl Xn' Yn' (by omega) (by omega)
+      (by show cy + dy + n * ((base.fp.bbH : Int) * v) ≤ Yn'; omega)
+      (by show (Yn' : Int) < cy + dy + n * ((base.fp.bbH : Int) * v) + (base.fp.bbH : Int) * v; omega)
+    have sh := textR0_shift W H (lines s)[n] (lineSt (atSize base h v cx cy) n) (Spec.Text.lineDx dx n) dy Xn Yn Xn' Yn'
+      (by omega) (by omega) (by omega) (by omega) (by omega) (by omega)
+    have est := lineSt_shift (atSize base h v cx cy) dx dy n
+    rw [← est] at sh
+    have tc : (movedSt (atSize base h v cx cy) dx dy).tcol = (atSize base h v cx cy).tcol := rfl
+    by_cases hr : textR0 (geo0 W H) (lineSt (atSize base h v cx cy) n) (lines s)[n] Xn Yn
+    · rw [pA.1 hr, pB.1 (sh.2 hr), tc]
+    · rw [pA.2 hr, pB.2 (fun h' => hr (sh.1 h'))]
+  case fs =>
+    intro hu n I J p q hn p0 p1 q0 q1 i0 j0 j1 xw yh
+    obtain ⟨ua0, _, uc0, _, _⟩ := unclipped_elim_lines _ hu
+    have ua : Spec.Text.boxesFit (linesCase W H cx cy dx dy h v _ _ _ _ 0 glyphs) cx cy h
+        (lineHeight (atSize base h v cx cy) : Int) ((lines s).map (strWidth (atSize base h v cx cy))) = true := ua0
+    have uc : Spec.Text.boxesFit (linesCase W H cx cy dx dy h v _ _ _ _ 0 glyphs) cx cy 1
+        (lineHeight (atSize base 1 1 cx cy) : Int) ((lines s).map (strWidth (atSize base 1 1 cx cy))) = true := uc0
+    rw [elh] at ua
+    rw [elh1] at uc
+    have hneA : NoEarlyL (geo0 W H) (atSize base h v cx cy) s :=
+      noEarlyL_of_boxesFit W H (atSize base h v cx cy) s hh hv _ rfl rfl ua
+    have hneC : NoEarlyL (geo0 W H) (atSize base 1 1 cx cy) s :=
+      noEarlyL_of_boxesFit W H (atSize base 1 1 cx cy) s (by show (1 : Int) ≤ 1; omega) (by show (1 : Int) ≤ 1; omega) _ rfl rfl uc
+    have hn' : n < (lines s).length := by
+      have : n < ((lines s).map (strWidth (atSize base h v cx cy))).length := hn
+      rwa [List.length_map] at this
+    have hnl : (lines s)[n]? = some (lines s)[n] := List.getElem?_eq_getElem hn'
+    have hl10 : 10 ∉ (lines s)[n] := lines_mem_no_lf s _ (List.getElem_mem hn')
+    obtain ⟨⟨a1, a2, _, _⟩, _⟩ := boxesFit_elim _ _ _ _ _ _ ua
+    have p1' : p < h := p1
+    have q1' : q < v := q1
+    have j1' : J < (lineHeight (atSize base 1 1 cx cy) : Int) := j1
+    have xw' : Spec.Text.lineX cx n + h * I + p < (W : Int) := xw
+    have yh' : cy + n * (lineHeight (atSize base h v cx cy) : Int) + v * J + q < (H : Int) := yh
+    rw [elh] at yh'
+    rw [elh1] at j1'
+    show Spec.Text.bitAt ((W + 7) / 8) _ (Spec.Text.lineX cx n + h * I + p)
+        (cy + n * (lineHeight (atSize base h v cx cy) : Int) + v * J + q) =
+      Spec.Text.bitAt ((W + 7) / 8) _ (Spec.Text.lineX cx n + I) (cy + n * (lineHeight (atSize base 1 1 cx cy) : Int) + J)
+    rw [elh, elh1]
+    have hx0 := lineX_nonneg cx n a1
+    have hI : I ≤ h * I := by
+      have : 0 ≤ (h - 1) * I := Int.mul_nonneg (by omega) i0
+      rw [Int.sub_mul, Int.one_mul] at this; omega
+    have hJ : J ≤ v * J := by
+      have : 0 ≤ (v - 1) * J := Int.mul_nonneg (by omega) j0
+      rw [Int.sub_mul, Int.one_mul] at this; omega
+    have hI0 : 0 ≤ h * I := Int.mul_nonneg (by omega) i0
+    have hJ0 : 0 ≤ v * J := Int.mul_nonneg (by omega) j0
+    have hn0 : (0 : Int) ≤ (n : Int) * ((base.fp.bbH : Int) * v) := Int.mul_nonneg (by omega) (by omega)
+    have hn1 : (n : Int) * ((base.fp.bbH : Int) * 1) ≤ (n : Int) * ((base.fp.bbH : Int) * v) :=
+      Int.mul_le_mul_of_nonneg_left (Int.mul_le_mul_of_nonneg_left (by omega) (by omega)) (by omega)
+    have hn2 : (0 : Int) ≤ (n : Int) * ((base.fp.bbH : Int) * 1) := Int.mul_nonneg (by omega) (by omega)
+    obtain ⟨Xh, hXh⟩ := Int.eq_ofNat_of_zero_le (a := Spec.Text.lineX cx n + h * I + p) (by omega)
+    obtain ⟨Yh, hYh⟩ := Int.eq_ofNat_of_zero_le (a := cy + n * ((base.fp.bbH : Int) * v) + v * J + q) (by omega)
+    obtain ⟨X1, hX1⟩ := Int.eq_ofNat_of_zero_le (a := Spec.Text.lineX cx n + I) (by omega)
+    obtain ⟨Y1, hY1⟩ := Int.eq_ofNat_of_zero_le (a := cy + n * ((base.fp.bbH : Int) * 1) + J) (by omega)
+    rw [hXh, hYh, hX1, hY1]
+    rw [bitAt_render_eq W H (atSize base h v cx cy) s hwr hA0 Xh Yh (by omega), bitAt_render_eq W H (atSize base 1 1 cx cy) s hwr hC0 X1 Y1 (by omega)]
+    have pA := px_line W H (atSize base h v cx cy) s hwr hbg hneA hv n _ hnl Xh Yh (by omega) (by omega)
+      (by show cy + n * ((base.fp.bbH : Int) * v) ≤ Yh; omega)
+      (by show (Yh : Int) < cy + n * ((base.fp.bbH : Int) * v) + (base.fp.bbH : Int) * v
+          have : v * J + q < v * (base.fp.bbH : Int) := by
+            have : v * (J + 1) ≤ v * (base.fp.bbH : Int) := Int.mul_le_mul_of_nonneg_left (by omega) (by omega)
+            rw [Int.mul_add, Int.mul_one] at this; omega
+          have ec : (base.fp.bbH : Int) * v = v * (base.fp.bbH : Int) := Int.mul_comm _ _
+          omega)
+    have pC := px_line W H (atSize base 1 1 cx cy) s hwr hbg hneC (by show (1 : Int) ≤ 1; omega) n _ hnl X1 Y1 (by omega) (by omega)
+      (by show cy + n * ((base.fp.bbH : Int) * 1) ≤ Y1; omega)
+      (by show (Y1 : Int) < cy + n * ((base.fp.bbH : Int) * 1) + (base.fp.bbH : Int) * 1; omega)
+    have sc := line_scale W H base hsp h v cx cy (by omega) (by omega) n _ hl10 I J p q Xh Yh X1 Y1
+      (by omega) (by omega) (by omega) (by omega) p0 p1' q0 q1' hXh.symm hYh.symm hX1.symm hY1.symm
+    have tc : (atSize base h v cx cy).tcol = (atSize base 1 1 cx cy).tcol := rfl
+    by_cases hr : textR0 (geo0 W H) (lineSt (atSize base 1 1 cx cy) n) (lines s)[n] X1 Y1
+    · rw [pC.1 hr, pA.1 (sc.2 hr), tc]
+    · rw [pC.2 hr, pA.2 (fun h' => hr (sc.1 h'))]
+
+
+/-- the one-line case record is the one-segment instance -/
+example (W H : Nat) (cx cy dx dy h v lh lh1 sw sw1 : Int) (sp glyphs : Nat) :
+    oneLineCase W H cx cy dx dy h v lh lh1 sw sw1 sp glyphs = linesCase W H cx cy dx dy h v lh lh1 [sw] [sw1] sp glyphs := rfl
+
+/-- **One line, any canvas width**: `spec_check_holds_state` without the hypothesis `W % 8 = 0` (the canvas stores `⌈W/8⌉`
+bytes per row; the padding bits `W ≤ X < 8·⌈W/8⌉`, which the Spec scans as well, are never written: `DrawPixel` clips at `W`) -/
+theorem spec_check_holds_state_anyW (W H : Nat) (base : TextSt) (hsp : base.spacing = 0)
+    (hwr : base.wrap = false) (hbg : base.tbg = base.tcol) (h v cx cy dx dy : Int) (s : List Nat)
+    (hs : 10 ∉ s) (hh : 1 ≤ h) (hv : 1 ≤ v) (hv' : v < 16777216) (glyphs : Nat) :
+    Spec.Text.check
+      (oneLineCase W H cx cy dx dy h v (lineHeight (atSize base h v cx cy)) (lineHeight (atSize base 1 1 cx cy))
+        (strWidth (atSize base h v cx cy) s) (strWidth (atSize base 1 1 cx cy) s) 0 glyphs)
+      (bytesU8 (renderText (newCanvas W H, atSize base h v cx cy) s).1)
+      (bytesU8 (renderText (newCanvas W H,
+        { atSize base h v cx cy with cx := (atSize base h v cx cy).cx + dx, cy := (atSize base h v cx cy).cy + dy }) s).1)
+      (bytesU8 (renderText (newCanvas W H, atSize base 1 1 cx cy) s).1) = none := by
+  have := spec_check_lines_state W H base hsp hwr hbg h v cx cy dx dy s hh hv hv' glyphs
+  rw [lines_no_lf s hs] at this
+  exact this
+
+/-- **The executable Spec holds of the model's three renderings, any string, any canvas width** in the fixed setter order
+of `text.case`: the instance of `spec_check_lines_state` for the state that order leaves. -/
+theorem spec_check_lines (W H : Nat) (font : Int) (prop : Bool) (h v cx cy dx dy : Int) (s : List Nat)
+    (hh : 1 ≤ h) (hv : 1 ≤ v) (hv' : v < 16777216) (glyphs : Nat) :
+    Spec.Text.check
+      (linesCase W H cx cy dx dy h v (lineHeight (caseState font prop 0 h v cx cy)) (lineHeight (caseState font prop 0 1 1 cx cy))
+        ((lines s).map (strWidth (caseState font prop 0 h v cx cy))) ((lines s).map (strWidth (caseState font prop 0 1 1 cx cy))) 0 glyphs)
+      (bytesU8 (renderText (newCanvas W H, caseState font prop 0 h v cx cy) s).1)
+      (bytesU8 (renderText (newCanvas W H, caseState font prop 0 h v (cx + dx) (cy + dy)) s).1)
+      (bytesU8 (renderText (newCanvas W H, caseState font prop 0 1 1 cx cy) s).1) = none := by
+  rw [caseState_eq font prop h v cx cy hh hv, caseState_eq font prop h v (cx + dx) (cy + dy) hh hv,
+    caseState_eq font prop 1 1 cx cy (by omega) (by omega)]
+  exact spec_check_lines_state W H (mkState font prop 0 0 1 1) rfl rfl rfl h v cx cy dx dy s hh hv hv' glyphs
+
+/-- **The final case of a session obeys the executable Spec, any string, any canvas width**: `sess_final_holds` without
+`10 ∉ s` and without `W % 8 = 0`. -/
+theorem sess_final_lines (W0 H0 : Nat) (calls : List TextCall) (W H : Nat) (cx cy dx dy : Int)
+    (s : List Nat) (glyphs : Nat)
+    (hsp : (runCalls (newCanvas W0 H0, {}) calls).2.spacing = 0)
+    (hh : 1 ≤ (runCalls (newCanvas W0 H0, {}) calls).2.tsH) (hv : 1 ≤ (runCalls (newCanvas W0 H0, {}) calls).2.tsV)
+    (hv' : (runCalls (newCanvas W0 H0, {}) calls).2.tsV < 16777216) :
+    Spec.Text.check
+      (linesCase W H cx cy dx dy (runCalls (newCanvas W0 H0, {}) calls).2.tsH (runCalls (newCanvas W0 H0, {}) calls).2.tsV
+        (lineHeight (sessA (runCalls (newCanvas W0 H0, {}) calls).2 cx cy)) (lineHeight (sessC (runCalls (newCanvas W0 H0, {}) calls).2 cx cy))
+        ((lines s).map (strWidth (sessA (runCalls (newCanvas W0 H0, {}) calls).2 cx cy)))
+        ((lines s).map (strWidth (sessC (runCalls (newCanvas W0 H0, {}) calls).2 cx cy))) 0 glyphs)
+      (bytesU8 (renderText (newCanvas W H, sessA (runCalls (newCanvas W0 H0, {}) calls).2 cx cy) s).1)
+      (bytesU8 (renderText (newCanvas W H, sessA (runCalls (newCanvas W0 H0, {}) calls).2 (cx + dx) (cy + dy)) s).1)
+      (bytesU8 (renderText (newCanvas W H, sessC (runCalls (newCanvas W0 H0, {}) calls).2 cx cy) s).1) = none := by
+  have hbg := runCalls_bg calls (newCanvas W0 H0, {}) rfl
+  generalize (runCalls (newCanvas W0 H0, {}) calls).2 = t at *
+  have eA : sessA t cx cy = atSize { t with wrap := false } t.tsH t.tsV cx cy := rfl
+  have eB : sessA t (cx + dx) (cy + dy) =
+      { atSize { t with wrap := false } t.tsH t.tsV cx cy with
+        cx := (atSize { t with wrap := false } t.tsH t.tsV cx cy).cx + dx,
+        cy := (atSize { t with wrap := false } t.tsH t.tsV cx cy).cy + dy } := rfl
+  have eC : sessC t cx cy = atSize { t with wrap := false } 1 1 cx cy := by
+    unfold sessC setTextSize setCursor atSize
+    simp
+  rw [eA, eB, eC]
+  exact spec_check_lines_state W H { t with wrap := false } hsp rfl hbg t.tsH t.tsV cx cy dx dy s hh hv hv' glyphs
+
+/-- non-vacuity: "A⏎Zz" (two lines), font 0, size 2×2 at (2,1) moved by (3,2) on a 61×40 canvas (61 is not a multiple of 8):
+the Spec's `unclipped` test is true, so `spec_check_lines` speaks about all four clauses, both lines, there -/
+example : Spec.Text.unclipped
+    (linesCase 61 40 2 1 3 2 2 2 (lineHeight (caseState 0 true 0 2 2 2 1)) (lineHeight (caseState 0 true 0 1 1 2 1))
+      ((lines [65, 10, 90, 122]).map (strWidth (caseState 0 true 0 2 2 2 1)))
+      ((lines [65, 10, 90, 122]).map (strWidth (caseState 0 true 0 1 1 2 1))) 0 2) = true := by
+  decide +kernel
+
+/-- the gate has teeth for lines: the same case on a canvas one line too low (`H = 30 < 1 + 2·16`) is clipped -/
+example : Spec.Text.unclipped
+    (linesCase 61 30 2 1 3 2 2 2 (lineHeight (caseState 0 true 0 2 2 2 1)) (lineHeight (caseState 0 true 0 1 1 2 1))
+      ((lines [65, 10, 90, 122]).map (strWidth (caseState 0 true 0 2 2 2 1)))
+      ((lines [65, 10, 90, 122]).map (strWidth (caseState 0 true 0 1 1 2 1))) 0 2) = false := by
   decide +kernel
 
 end RawPanelVerif.C20
